@@ -167,6 +167,18 @@ func init() {
 			libEffects[name] = [2]bool{true, false}
 		}
 	}
+	libModels["sort.Ints"] = func(tr *FnTr, x ssa.Value, a []Val, cc *ssa.CallCommon) Val {
+		tr.usedModel("sort.Ints (the elements of the slice are overwritten: ascending order, each within the range of the old values' type; nothing else is written)")
+		buf := a[0]
+		lo, hi := buf.L[1], Add(buf.L[1], buf.L[2])
+		tr.havocCells(buf.L[0], lo, hi, "sort")
+		arr := Select(tr.st.Mem, buf.L[0])
+		k := Sym("k!q", SInt)
+		tr.vc.Assume(Implies(tr.st.Reach, Forall([]*Term{k}, Implies(And(Le(lo, k), Lt(Add(k, Int(1)), hi)),
+			Le(Select(arr, k), Select(arr, Add(k, Int(1))))), Select(arr, k))))
+		return Val{}
+	}
+	libEffects["sort.Ints"] = [2]bool{true, false}
 	mk("crypto/rand.Read", func(tr *FnTr, x ssa.Value, a []Val, cc *ssa.CallCommon) Val {
 		buf := a[0]
 		tr.havocCells(buf.L[0], buf.L[1], Add(buf.L[1], buf.L[2]), "rnd")
